@@ -59,9 +59,49 @@ def showRes (trueStart : Nat) (rc : String) : Res → String
   | .found p => if p = trueStart then s!"off={p} exit={rc} files=ok" else s!"off={p} misfound"
   | .notFound => "off=none fall"
   | .hang => "HANG"
+  | .panic => "PANIC slice bounds out of range"
 
 def runCase (payload : String) : String :=
   match payload.splitOn " " with
+  | ["out", variant, n, k, rc] =>
+    -- after the scan: the parts that are not modelled enter as the named facts of `After`
+    match n.toNat?, k.toNat?, rc.toNat? with
+    | some n, some k, some rc =>
+      let M := geom.marker
+      let a : Option After :=
+        match variant with
+        | "ok" => some { seekOk := true, zipOk := true, entryOk := true, result := rc }
+        | "badzip" => some { seekOk := true, zipOk := false, entryOk := true, result := rc }
+        | "emptyzip" => some { seekOk := true, zipOk := false, entryOk := true, result := rc }
+        | "parseerr" => some { seekOk := true, zipOk := true, entryOk := false, result := rc }
+        | "rterr" => some { seekOk := true, zipOk := true, entryOk := true, result := 0 }
+        | "string" => some { seekOk := true, zipOk := true, entryOk := true, result := 0 }
+        | "float" => some { seekOk := true, zipOk := true, entryOk := true, result := rc }
+        | "negative" => some { seekOk := true, zipOk := true, entryOk := true, result := -(rc : Int) }
+        | _ => none
+      match a with
+      | none => "bad-payload"
+      | some a =>
+        let data := if variant = "emptyzip" then fill n k 0 ++ M else layout M (fill n k 0) [80, 75, 3, 4]
+        let r := Impl.scan geom Impl.fullReads data
+        let off := match r with | .found p => s!"off={p} " | _ => ""
+        let o := match outcome r a with
+          | .exit c => s!"exit={c}"
+          | .fallThrough => "fall"
+          | .fail => "fail"
+          | .hang => "HANG"
+        s!"out {off}{o}\tnt=1"
+    | _, _, _ => "bad-payload"
+  | ["rt", _seed, n, k, rc, via] =>
+    -- random project tree through the tool's own command line: the scan does not depend on the tree
+    match n.toInt?, k.toNat? with
+    | some n, some k =>
+      let M := geom.marker
+      if via = "cli" then s!"rt off=cli+{M.length} exit={rc} files=ok\tnt=1"
+      else
+        let data := layout M (fill n.toNat k 0) [80, 75, 3, 4]
+        "rt " ++ showRes (n.toNat + M.length) rc (Impl.scan geom Impl.fullReads data) ++ "\tnt=1"
+    | _, _ => "bad-payload"
   | ["seq", _first, _mode, n2, k2, _t2, rc, proc] =>
     -- the layout has no memory (`pack_overwrites`, `pack_truncates`): whatever the target was
     -- before, the file is the fresh pack of the last project; it is executable and runs
@@ -77,12 +117,18 @@ def runCase (payload : String) : String :=
       let procPart := if proc = "1" then s!" proc:exit={rc}:entry=ran" else ""
       s!"seq fresh=same x=1 {scanPart}{procPart}\tnt=1"
     | _, _ => "bad-payload"
+  | ["proc", _tree, rc, _args, _form] =>
+    -- every way of starting it (`Props.C20.locate_started_file`): the file scanned is the file started
+    s!"proc srcmarker=0 exit={rc} entry=ran clean=1\tnt=1"
   | ["proc", _tree, rc, _args] =>
     -- the real executable: `main` calls RunPackedBinary first and unconditionally
     -- (`Gen.mainCallsRunPackedFirst`, obligation `main_runs_packed_first`), so the command line
     -- does not matter; the interpreter binary does not contain the marker (`geom_marker_assembled`)
     s!"proc srcmarker=0 exit={rc} entry=ran clean=1\tnt=1"
-  | [packed, n, kind, seed, plants, ws, _tree, rc, zip4] =>
+  | [packed, n, kind, seed, plants, ws, tree, rc, zip4] =>
+    -- a tree marked `r` (root file named like the archive's entry member; a symbolic link that cannot
+    -- be packed as a file) must be refused by the pack tool with an error: no executable is built
+    if packed = "1" ∧ tree.endsWith "r" then "pack-refused\tnt=1" else
     match n.toNat?, kind.toNat?, seed.toNat?, parsePlants plants, hexDecode ws, hexDecode zip4 with
     | some n, some kind, some seed, some plants, some ws, some zip4 =>
       let M := geom.marker
